@@ -859,7 +859,7 @@ func TestCheck(t *testing.T) {
 			"real thread schedules: the free spec and the waiting points of the sched spec depend on the Go scheduler; a logged overlap is a definite violation, absence of one is evidence for the schedules that happened",
 		},
 	}
-	pbt.Add(s, &pbt.Spec[Case]{Name: "sched", Gen: genSched, Run: run, Quick: 40000, Thorough: 1500000, Shards: 6, Nondet: true})
-	pbt.Add(s, &pbt.Spec[Case]{Name: "free", Gen: genFree, Run: run, Quick: 20000, Thorough: 600000, Shards: 6, Nondet: true})
+	pbt.Add(s, &pbt.Spec[Case]{Name: "sched", Gen: genSched, Run: run, Quick: 120000, Thorough: 3000000, Shards: 6, Nondet: true})
+	pbt.Add(s, &pbt.Spec[Case]{Name: "free", Gen: genFree, Run: run, Quick: 60000, Thorough: 1200000, Shards: 6, Nondet: true})
 	s.Main(t)
 }
